@@ -175,10 +175,10 @@ def _compile_route(route):
             gen.append(quote_path_segment(s, safe='/').replace('%', '%%'))
 
     if remainder:
-        rpat.append('(?P<%s>.*?)' % remainder)  # unicode
+        rpat.append('(?P<%s>(?s:.*?))' % remainder)  # unicode
         gen.append('%%(%s)s' % remainder)  # native
 
-    pattern = ''.join(rpat) + '$'  # unicode
+    pattern = ''.join(rpat) + r'\Z'  # unicode
 
     match = re.compile(pattern).match
 
